@@ -22,6 +22,7 @@ use tu_verif::run::Run;
 
 const ALPHA: [&str; 5] = ["a", "b", "A", "-", " "];
 const CLUSTER_ALPHA: [&str; 3] = ["a", "x\u{301}", " "];
+const WIDE_ALPHA: [&str; 5] = ["ä", "Ä", "\u{fb01}", "1", " "];
 const QUERY_ALPHA: [&str; 3] = ["a", "b", "A"];
 const QUERY_MAX_LEN: usize = 3;
 const MAX_SIZES: [Option<usize>; 5] = [None, Some(0), Some(1), Some(2), Some(10)];
@@ -509,6 +510,13 @@ fn main() {
             sets.push(vec![vec![l]]);
         }
     }
+    // one line over a two-byte letter in both cases, a ligature that NFKC rewrites to two letters,
+    // and a digit (neither letter nor punctuation: n-grams around it are not counted)
+    for l in strings(&WIDE_ALPHA, run.pick(3, 4)) {
+        if l.chars().any(|c| !c.is_ascii() || c.is_ascii_digit()) {
+            sets.push(vec![vec![l]]);
+        }
+    }
     let two = strings(&ALPHA, two_max);
     for x in &two {
         for y in &two {
@@ -587,7 +595,8 @@ fn main() {
     run.bounds.insert(
         "file_sets_rule".into(),
         json!(format!(
-            "1 line of at most {one_max} symbols; 2 lines of at most {two_max} symbols each; 3 lines of at most 1 symbol each over {three_alpha:?}; lines cut into consecutive non-empty files in every way"
+            "1 line of at most {one_max} symbols; 1 line of at most 3 symbols over {CLUSTER_ALPHA:?} with the cluster; 1 line of at most {} symbols over {WIDE_ALPHA:?} with a non-ASCII symbol or the digit; 2 lines of at most {two_max} symbols each; 3 lines of at most 1 symbol each over {three_alpha:?}; lines cut into consecutive non-empty files in every way",
+            run.pick(3, 4)
         )),
     );
     run.bounds.insert("max_size".into(), json!(MAX_SIZES.iter().map(|o| opt_json(*o)).collect::<Vec<_>>()));
